@@ -125,6 +125,12 @@ static NEXT_EXEC_ID: std::sync::atomic::AtomicUsize = std::sync::atomic::AtomicU
 /// Reset the executor id counter (start of a simulated run).
 pub fn sim_reset() {
     NEXT_EXEC_ID.store(1, std::sync::atomic::Ordering::SeqCst);
+    LOCAL_FULL.store(0, std::sync::atomic::Ordering::SeqCst);
+}
+/// `try_send` calls on a local channel that found it full since the last reset (reach measure)
+pub(crate) static LOCAL_FULL: std::sync::atomic::AtomicU64 = std::sync::atomic::AtomicU64::new(0);
+pub fn sim_local_full_count() -> u64 {
+    LOCAL_FULL.load(std::sync::atomic::Ordering::SeqCst)
 }
 
 impl LocalExecutorBuilder {
